@@ -1,4 +1,5 @@
 """C12 - frequent items sketch."""
+import os, re, shutil
 from . import core
 from .props import prop, job, mc_all, Q, T
 
@@ -25,6 +26,7 @@ def fi_nontrivial(evs):
 
 FI_JOB = job("fi",
     harness="fi_rec", inc=["common", "fi"], spec="TraceFreqItems", owners=["C12"], serde=True,
+    drift_cfg="TraceFreqItemsB.cfg",    # tier B: the mechanism of FreqItemsMech (code constants) applied to the logged pre-state
     files={Q: 8, T: 40},
     # thorough: every fifth file starts with one long segment on a lg_max 11 map (1537 active entries at a purge: sampled median)
     args=lambda tier, seed, k, profile: ["--seed", seed, "--segments", 6 if tier == Q else 8, "--events", 350 + 50 * (k % 4),
@@ -35,11 +37,54 @@ FI_JOB = job("fi",
     rec_timeout=240,     # a recording takes seconds; a driver that hangs inside the library is reported as a crash
 )
 
+GEN_DIR = os.path.join(core.BUILD, "gen_fi.%d" % os.getpid())   # one directory per run
+GEN_DEPTH = 60
+
+
+def gen_fi(oc, tier, seed):
+    """spec -> impl: TLC -simulate walks the frequent-items design model with the code's real minimum sizes (GenFreqItems.tla:
+    LG_MIN_MAP_SIZE 3, lg_max 3 / 4, items 1..14, weights 0..3) and writes each finished walk with the model's expected map, offset,
+    number of active items and lg_cur after every step; fi_rec --replay-dir replays them on the real sketch."""
+    shutil.rmtree(GEN_DIR, ignore_errors=True)
+    os.makedirs(GEN_DIR, exist_ok=True)
+    n = 6 if tier == Q else 40
+    rc, out, wall = core.tlc("GenFreqItems", "GenFreqItems.cfg", workers=4, timeout=900, heap="2g", env={"GEN_DIR": GEN_DIR},
+                             simulate="num=%d" % n, extra=("-depth", str(GEN_DEPTH + 1), "-seed", str(seed)))
+    r = core.parse_tlc(out)
+    nb = len([f for f in os.listdir(GEN_DIR) if f.endswith(".ndjson")])
+    if nb == 0 or r["parse_error"]:
+        raise core.MachineryError("behaviour generation GenFreqItems produced nothing:\n" + out[-2000:])
+    m = re.search(r"The number of states generated: (\d+)", out)
+    oc.mc.append({"module": "GenFreqItems", "cfg": "GenFreqItems.cfg (-simulate)", "generated": int(m.group(1)) if m else 0,
+                  "distinct": nb * (GEN_DEPTH + 1), "depth": GEN_DEPTH + 1, "wall_s": round(wall, 1)})
+    oc.extra["generated_behaviours"] = nb
+    core.log("  generated %d behaviours of depth %d with TLC -simulate in %.1fs" % (nb, GEN_DEPTH, wall))
+
+
+def replay_nontrivial(evs):
+    # a replayed behaviour is non-trivial if the model purged (or resized) at least once: maximum error or lg_cur changed
+    off = lg = None
+    for e in evs:
+        if e["e"] in ("Update", "New"):
+            if off is not None and (e["off"] != off or e["lgCur"] != lg):
+                return True
+            off, lg = e["off"], e["lgCur"]
+    return False
+
+
+FI_REPLAY_JOB = job("fi_replay",
+    harness="fi_rec", inc=["common", "fi"], spec="TraceFreqItems", owners=["C12"], drift_cfg="TraceFreqItemsB.cfg",
+    files={Q: 2, T: 4},
+    args=lambda tier, seed, k, profile: ["--seed", seed, "--replay-dir", GEN_DIR, "--part", k, "--parts", 2 if tier == Q else 4],
+    nontrivial=replay_nontrivial, rec_timeout=240,
+)
+
 FI_MC = [
     dict(module="FreqItemsDesign", cfg="MC_FreqItemsDesign.cfg"),
     dict(module="FreqItemsDesign", cfg="MC_FreqItemsDesign_w1.cfg"),
     dict(module="MC_FreqItems", cfg="MC_FreqItems.cfg"),
     dict(module="FreqItemsDesign", cfg="MC_FreqItemsDesign_t.cfg", tier=T),
+    dict(module="FreqItemsDesign", cfg="MC_FreqItemsDesign_w1t.cfg", tier=T),
 ]
 
 
@@ -51,7 +96,10 @@ FI_MC = [
       "frequent_items_sketch<int64_t> / <std::string> (Zipf, uniform, all-distinct-then-repeats and equal-weight streams, zero weights, lg_max 3..8 "
       "quick / ..11 thorough, start sizes, lvalue and rvalue updates and merges between sketches of different sizes, copies, serialization), every "
       "event validated by TLC against the contract with the ground truth accumulated from the logged inputs; a segment is non-trivial when a purge "
-      "happened and two sketches that both carried weight were merged; distinct = distinct segment content hash",
+      "happened and two sketches that both carried weight were merged; distinct = distinct segment content hash.  Tier B (drift only): every accepted "
+      "trace is also validated against the mechanism of the design model (FreqItemsMech with the code's constants: capacity 0.75, LG_MIN 3, median purge, "
+      "merge replay in the other's table order, lg_cur from to_string()).  spec -> impl: TLC -simulate walks of GenFreqItems (depth 60) are replayed on the "
+      "real sketch and validated in both tiers together with the model's expected state (generated states are counted in the MC statistics)",
       ["items are logged as indices of the driver's universe; the rows of a sketch are logged on every event as the difference of "
        "get_frequent_items(NO_FALSE_NEGATIVES, 0) against the previous event (lossless)",
        "NO_FALSE_NEGATIVES clause is taken for the effective threshold max(threshold, get_maximum_error()) (no summary can return an item it dropped; "
@@ -63,3 +111,6 @@ def run_c12(oc, repo, seed, tier):
     neg = core.model_check("FreqItemsDesign", "MC_FreqItemsDesign_neg.cfg", workers=4, timeout=300, expect_violation=True)
     oc.notes.append("negative config MC_FreqItemsDesign_neg.cfg (merge skips a sketch without active rows): TLC reports %s" % (neg["errors"][:1],))
     core.trace_job(oc, FI_JOB, repo, seed, tier)
+    gen_fi(oc, tier, seed)
+    core.trace_job(oc, FI_REPLAY_JOB, repo, seed, tier)
+    shutil.rmtree(GEN_DIR, ignore_errors=True)
